@@ -151,4 +151,4 @@ package peer
 //@ lemma id-key-roundtrip: forall k bytes :: len(pubKeyPB(k)) <= 9223372036854775807 ==> pubKeyFromPB(mhDigest(mhEnc(0, pubKeyPB(k)))) == k
 //@ lemma id-injective: forall a bytes, b bytes :: len(pubKeyPB(a)) <= 9223372036854775807 && len(pubKeyPB(b)) <= 9223372036854775807 && mhEnc(0, pubKeyPB(a)) == mhEnc(0, pubKeyPB(b)) ==> a == b
 // and the text form round-trips
-//@ lemma id-text-roundtrip: forall i bytes :: b58ok(b58enc(i)) && b58dec(b58enc(i)) == i
+//@ lemma id-text-roundtrip: forall i bytes :: len(i) > 0 ==> b58ok(b58enc(i)) && b58dec(b58enc(i)) == i
